@@ -1424,6 +1424,14 @@ func init() {
 		c.Assume = append(c.Assume, "the independent document is described by the struct-tag table: under each declared term a member of the kind that term admits, with an arbitrary value")
 		jsonReadsDeclaredTermObligations(w, c, "C05")
 		jsonLeafItemReaders(w, c, "C05")
+		// "a value of the type the document names": the dispatch of the item decoder per vocabulary name (as in C07)
+		names := []string{""}
+		entry := map[string]vocabEntry{"": {Name: "", Family: "object", GoType: "Object"}}
+		for _, e := range vocab {
+			names = append(names, e.Name)
+			entry[e.Name] = e
+		}
+		jsonDispatchObligations(w, c, "C05", names, entry)
 	}
 }
 
